@@ -39,6 +39,8 @@ def random_cases(rng, count):
         c.update(params(rng, s, n, exact=False))
         if rng.random() < 0.6:
             c["malpha_f"] = rng.uniform(0.1, 1.0) if rng.random() < 0.7 else rng.uniform(1.0, 4.0)
+        if rng.random() < 0.2:          # the same series on a level far above its variation (exact translation of the values)
+            c["yoff"] = [rng.choice([-1, 1]), rng.choice([17, 20])]
         out.append(c)
     return out
 
